@@ -182,9 +182,15 @@ func (sc *StateCache) Get(key, blockHash string) (Value, bool) {
 			return nil, false
 		}
 
-		blockHash = prevHash.(string)
-		vyield("get:versions.get", key, blockHash)
+		// commit publishes the link of a block after all of its values, so a
+		// value that was missing before the link became visible may be there
+		// now: look again before moving on to the previous block
 		vv, ok = bvs.Get(blockHash)
+		if !ok {
+			blockHash = prevHash.(string)
+			vyield("get:versions.get", key, blockHash)
+			vv, ok = bvs.Get(blockHash)
+		}
 		if !ok {
 			// stop if the value is not found in previous maxHisDepth rounds
 			if count >= sc.maxHisDepth {
